@@ -13,6 +13,7 @@ def run(ck):
     if extra:
         extra(ck, w)
     r1_degenerate(ck, w)
+    k1_constants(ck, w)
     from . import c10
     c10.eval_ops(ck, w, 'C19', 'C19.N1')
 
@@ -109,3 +110,15 @@ def r1_degenerate(ck, w):
     ck.record('C19.R1', 'redirect_final_to_initial:state-count', ok_d, 'the new state count is taken from the kept states',
               'RawAutomaton::redirect_final_to_initial computes its state count as len - #final although a final initial state is kept: a zero-state automaton '
               'with a final state results and minimisation indexes out of bounds', hirq.fn_loc(h))
+
+
+def k1_constants(ck, w, rule='C19.K1'):
+    """the base64 table is the standard alphabet"""
+    from ..engines import consteq
+    ck.rule(rule, 'BASE64_TABLE (value computed by the compiler\'s const evaluator): entry i is (i-th character of the standard alphabet A-Z a-z 0-9 + /, i); the '
+                  'lookup table of the base64 chip is built from it, so a wrong entry decodes one character to another sextet.')
+    n = 0
+    for cid, ok, detail, loc in consteq.base64_equations(consteq.load(w, 'circuits')):
+        n += 1
+        ck.record(rule, cid, ok, detail, f'{cid} is not the standard base64 alphabet ({detail})', loc)
+    ck.floor(rule, 'base64 tables', n, 1)
